@@ -280,6 +280,34 @@ func genC19(t *rapid.T) c19Case {
 	for i := range lists {
 		lists[i].File = true
 	}
+	if len(lists) >= 2 && chance(t, "crossing-ids", 3) {
+		// list ids that are byte offsets of lines in the other list, and vice versa:
+		// (list a, offset b) and (list b, offset a) both name a rule
+		offs := func(txt string) []int {
+			var o []int
+			pos := 0
+			for _, ln := range strings.SplitAfter(txt, "\n") {
+				if strings.TrimSpace(ln) != "" {
+					o = append(o, pos)
+				}
+				pos += len(ln)
+			}
+			return o
+		}
+		oa, ob := offs(lists[0].Text), offs(lists[1].Text)
+		if len(oa) > 0 && len(ob) > 0 {
+			a, b := pick(t, "offset-in-first", oa), pick(t, "offset-in-second", ob)
+			free := a != b
+			for _, l := range lists[2:] {
+				if l.ID == a || l.ID == b {
+					free = false
+				}
+			}
+			if free {
+				lists[0].ID, lists[1].ID = b, a
+			}
+		}
+	}
 	c := c19Case{Lists: lists}
 	if chance(t, "mass-block", 20) {
 		// one query materialises more than 1024 rules (they share one shortcut window)
